@@ -51,7 +51,7 @@ func init() {
 		"bounded: all histories over the scenario alphabets up to the stated depth; data values outside the alphabets are not covered",
 	}
 	props["C01"] = propSpec{Checker: func() Checker { return chkC01{} }, Assume: common,
-		Runs: []runSpec{{"S-escrow", 5, 7, nil}, {"S-leased", 5, 6, nil}, {"S-life", 4, 6, nil}}}
+		Runs: []runSpec{{"S-escrow", 5, 7, nil}, {"S-leased", 5, 6, nil}, {"S-life", 4, 6, nil}, {"S-collide", 2, 3, nil}}}
 	props["C02"] = propSpec{Checker: func() Checker { return chkC02{} }, Assume: common,
 		Runs: []runSpec{{Scenario: "S-grid", Grid: gridHistories}, {"S-meter", 6, 8, nil}, {"S-escrow", 5, 7, nil}, {"S-leased", 5, 6, nil}}}
 	props["C06"] = propSpec{Checker: func() Checker { return chkC06{} }, Assume: []string{
@@ -84,7 +84,7 @@ func init() {
 		"expected events are derived from the pre/post state diff, so a change that is undone inside the same transaction is not expected to be announced",
 		"bounded: S-life / S-escrow / S-attr histories to the stated depth; codec grid over the colliding id set and prices 1, 2^63-1, 2^64, 10^30"},
 		Extra: func(th bool) (extraResult, error) { return CheckEventCodecs() },
-		Runs:  []runSpec{{"S-life", 5, 6, nil}, {"S-escrow", 5, 7, nil}, {"S-leased", 5, 6, nil}}}
+		Runs:  []runSpec{{"S-life", 5, 6, nil}, {"S-escrow", 5, 7, nil}, {"S-leased", 5, 6, nil}, {"S-attr", 6, 8, nil}}}
 	props["C08"] = propSpec{Checker: func() Checker { return chkC08{} }, Assume: []string{
 		"the statement is one-directional (a bid is accepted ONLY IF ...): accepted bids are checked against the oracle on the pre-state; rejected bids are counted but not judged",
 		"bounded: MatchRequirements grid over requirement/own/attested subsets of {a=1,b=1,a=2}, auditor lists over {U1,U2} incl. duplicates; S-attr histories to the stated depth"},
@@ -102,11 +102,11 @@ func init() {
 		Extra: c07Extra, LooseReplay: true,
 		Runs:  []runSpec{{"S-attr", 5, 7, nil}, {"S-life", 3, 4, nil}, {"S-escrow", 3, 4, nil}}}
 	props["C03"] = propSpec{Checker: func() Checker { return chkC03{} }, Assume: common,
-		Runs: []runSpec{{"S-escrow", 5, 7, nil}, {"S-leased", 5, 6, nil}, {"S-life", 4, 6, nil}}}
+		Runs: []runSpec{{"S-escrow", 5, 7, nil}, {"S-leased", 5, 6, nil}, {"S-life", 4, 6, nil}, {"S-collide", 2, 3, nil}}}
 	props["C04"] = propSpec{Checker: func() Checker { return chkC04{} }, Assume: common,
-		Runs: []runSpec{{"S-life", 5, 6, nil}, {"S-escrow", 5, 7, nil}, {"S-leased", 5, 6, nil}}}
+		Runs: []runSpec{{"S-life", 5, 6, nil}, {"S-escrow", 5, 7, nil}, {"S-leased", 5, 6, nil}, {"S-collide", 2, 3, nil}}}
 	props["C05"] = propSpec{Checker: func() Checker { return chkC05{} }, Assume: common,
-		Runs: []runSpec{{"S-life", 5, 6, nil}, {"S-escrow", 5, 7, nil}, {"S-leased", 5, 6, nil}}}
+		Runs: []runSpec{{"S-life", 5, 6, nil}, {"S-escrow", 5, 7, nil}, {"S-leased", 5, 6, nil}, {"S-collide", 2, 3, nil}}}
 }
 
 type replayFile struct {
